@@ -43,7 +43,7 @@ def arrOf (a : Args) (shapeK layoutK dataK : String) : Option (NDA Int) := do
   let col := (a.get? layoutK) == some "col"
   pure { shape := shape, colMajor := col, data := data }
 
-/-! ### integer element types (`ibinary`, `iouter`, `ireduce` of harness/h_c12i_*.cpp)
+/-! ### integer element types (`ibinary`, `iouter`, `ireduce`, `imatmul` of harness/h_c12i_*.cpp)
 
   The model functions are those of the float requests (`simdEvalBinarySame`, `simdEvalBinary2d`, `simdEvalOuter`,
   `simdEvalReduceAll`, `simdReduceAxisK`) at element type `BitVec w`: operands are stored as bit patterns
@@ -119,6 +119,19 @@ def handleInt (kind : String) (a : Args) : Option String :=
         match simdReduceAxisK N (packInt o) o.lane o.identity arr ax (keep != 0) with
         | some (outShape, out) => pure (okBV t (fmtNats outShape) out)
         | none => pure "ub"
+  | "c12.imatmul" => orBad do
+      let t ← (a.get? "dtype").bind intTyOf
+      let N ← a.nat "lanes"
+      let l ← bvArrOf t a "lshape" "ldata"
+      let r0 ← bvArrOf t a "rshape" "rdata"
+      let r : NDA (BitVec t.bits) := { r0 with colMajor := true }     -- rhs buffer in column-major storage order
+      match l.shape, r.shape with
+      | [M, K], [_, Nn] =>
+        -- `op.fmadd(l, r, acc)` on integer lanes = mullo then add (x86_sse.hpp:310-315, vector_extension.hpp:246-250)
+        match simdEvalMatmul N (fun x y z => x * y + z) (· * ·) (· + ·) 0 l r M K Nn (List.replicate (M * Nn) 0) with
+        | some out => pure (okBV t (fmtNats [M, Nn]) out)
+        | none => pure "ub"
+      | _, _ => none
   | _ => none
 
 def handle : Handler := fun kind a =>
